@@ -822,6 +822,17 @@ func registration(c *an.Ctx, wr *watchRoles, rule string) {
 		}
 	}
 	c.Check(re, rule, an.Short(run)+":re-add", run.Pos(), "a renamed path is added again", "a renamed path is not re-added to fsnotify")
+	// a selected path is never un-registered while the watcher serves (zero sites expected)
+	nRemove := 0
+	for _, fn := range sortedFns(wr.scopeRun) {
+		for _, ci := range an.CallsIn(fn, "(*github.com/fsnotify/fsnotify.Watcher).Remove") {
+			nRemove++
+			c.Bad(rule, an.Short(fn)+":Remove", ci.Pos(), "%s un-registers %s from fsnotify while the watcher is serving: later events on that path — for instance after the file is moved back — are never delivered", an.Short(fn), an.FieldProv(ci.Common().Args[1]))
+		}
+	}
+	if nRemove == 0 {
+		c.OK(rule, an.Short(run)+":no-Remove", run.Pos(), "nothing under Watcher.Run un-registers a path from fsnotify")
+	}
 }
 
 func serving(c *an.Ctx, wr *watchRoles, rule string) {
